@@ -224,9 +224,9 @@ CHECKS = {
              "effects is seen; the alignment pass under vertical_align; RenderOpts fields of the same name, align_reset decisions and "
              "renderer-internal layout for the widths; line-end writes and line-feed replacement for newline_style), and no crate that "
              "decides behaviour reads them. It does not decide that two layouts emit behaviourally equal SystemVerilog; "
-             "expand_inside_operation is excluded.",
+             "expand_inside_operation is excluded as a rewrite, except for one shape clause (R4): an emit_expanded_X twin taken under the option uses every component of a shared decision helper's tuple result that its plain twin uses.",
         design_ref="DESIGN.md section 3 C26, section 8.4i",
-        technique="workspace-wide field-read enumeration; forward value-flow (taint) with carrier-field closure; control dependence from post-dominators; consumer allow-table",
+        technique="workspace-wide field-read enumeration; forward value-flow (taint) with carrier-field closure; control dependence from post-dominators; consumer allow-table; sibling (twin) agreement on consumed result components",
     ),
     "C27": dict(
         category="other",
